@@ -31,8 +31,8 @@ theorem Inv.free {s : State} (hI : Inv s) {a : Actor} {n : Nat} {p : Pc} (hp : (
     Inv ((s.free n).setPc a p) := by
   have hpost := hI.postOk a n hp
   have hI' := hI
-  obtain ⟨kindC, kindF, lockOk, frWait, freshOk, freshVer, freshVerT, freshNode, wFreeTaken, preOk, postOk, ownOk, rsmTaken,
-    freeTaken, pubNode, waiting, parked, listOk, scanOk, prevOk, oScanOk, oNoneOk, aUnlockOk, aNextOk, aResumeOk, aFreeOk,
+  obtain ⟨kindC, kindF, lockOk, frWait, freshOk, freshUniq, freshVer, freshVerT, freshNode, wFreeTaken, preOk, postOk, ownOk, rsmTaken,
+    freeTaken, pubNode, waiting, parked, listOk, scanOk, prevOk, placed, oScanOk, oNoneOk, aUnlockOk, aNextOk, aResumeOk, aFreeOk,
     noRead, cTakeOk, allocUsed, noBad⟩ := hI
   obtain ⟨hs1, hs2, hs3, hs4, hs5, hs6, hs7, hs8, hs9⟩ := hshape
   constructor
@@ -41,6 +41,7 @@ theorem Inv.free {s : State} (hI : Inv s) {a : Actor} {n : Nat} {p : Pc} (hp : (
   case lockOk => inv_auto
   case frWait => inv_auto
   case freshOk => inv_auto
+  case freshUniq => inv_auto
   case freshVer => inv_auto
   case freshVerT => inv_auto
   case freshNode => inv_auto
@@ -65,6 +66,7 @@ theorem Inv.free {s : State} (hI : Inv s) {a : Actor} {n : Nat} {p : Pc} (hp : (
     · inv_simp; grind [upd]
     · inv_simp; grind [upd, updA, Pc.pend, Pc.locks]
     · inv_simp; grind [upd, updA, Pc.post]
+  case placed => inv_auto
   case oScanOk => inv_auto
   case oNoneOk => inv_auto
   case aUnlockOk => inv_auto
